@@ -45,11 +45,18 @@ class IsoText:
         self.what = what
 
 
+class HexText:
+    """the str produced by bytes.hex() on a symbolic binary value"""
+
+    def __init__(self, b):
+        self.b = b
+
+
 def J(obj, default):
     """orjson's documented mapping, applied to proxies as well"""
     import dataclasses
     import enum
-    if obj is None or isinstance(obj, (bool, str)):
+    if obj is None or isinstance(obj, (bool, str, HexText, IsoText)):
         return obj
     if isinstance(obj, int):
         if not -(1 << 63) <= obj < (1 << 64):
@@ -97,6 +104,48 @@ def J(obj, default):
     raise TypeError("Type is not JSON serializable: %s" % type(obj).__name__)
 
 
+def _spec_default(o):
+    """the rendering the property demands for values that are not JSON-native: binary as hex"""
+    if isinstance(o, _BytesProxy):
+        return HexText(o.b)
+    raise TypeError(type(o).__name__)
+
+
+def rendered_eq(v, v2):
+    """z3 Bool: v2 (taken from the parsed message) is the demanded JSON rendering of v - v itself for JSON-native values,
+    hex for binary, ISO text for dates and times, null for non-finite floats"""
+    try:
+        e = J(v, _spec_default)
+    except TypeError:
+        return z3.BoolVal(False)
+    return _tree_eq(e, v2)
+
+
+def _tree_eq(e, g):
+    if e is g:
+        return z3.BoolVal(True)
+    if isinstance(e, SymOpt) or isinstance(g, SymOpt):
+        en = e.none if isinstance(e, SymOpt) else z3.BoolVal(e is None)
+        gn = g.none if isinstance(g, SymOpt) else z3.BoolVal(g is None)
+        ei = e.inner if isinstance(e, SymOpt) else e
+        gi = g.inner if isinstance(g, SymOpt) else g
+        inner = _tree_eq(ei, gi) if (ei is not None and gi is not None) else z3.BoolVal(True)
+        return z3.And(en == gn, z3.Implies(z3.Not(en), inner))
+    if isinstance(e, HexText) or isinstance(g, HexText):
+        return z3.BoolVal(isinstance(e, HexText) and isinstance(g, HexText) and e.b is g.b)
+    if isinstance(e, IsoText) or isinstance(g, IsoText):
+        if not (isinstance(e, IsoText) and isinstance(g, IsoText)):
+            return z3.BoolVal(False)
+        return z3.BoolVal(True) if e.what is g.what else numkernel.eq_term(e.what, g.what)
+    if isinstance(e, (SymFlags, SymText, SymBinary)) or isinstance(g, (SymFlags, SymText, SymBinary)):
+        return z3.BoolVal(False)
+    if isinstance(e, list) or isinstance(g, list):
+        if not (isinstance(e, list) and isinstance(g, list) and len(e) == len(g)):
+            return z3.BoolVal(False)
+        return z3.And(*[_tree_eq(a, b) for a, b in zip(e, g)]) if e else z3.BoolVal(True)
+    return numkernel.eq_term(e, g)
+
+
 class _BytesProxy:
     """a bytes value whose content is symbolic: the library's `default` calls .hex() on it"""
 
@@ -104,7 +153,7 @@ class _BytesProxy:
         self.b = b
 
     def hex(self):
-        return ("HEX", self.b)
+        return HexText(self.b)
 
 
 class _Orjson:
@@ -134,7 +183,7 @@ class _FakeBytes(bytes):
         return o
 
     def hex(self, *a):
-        return ("HEX", self.proxy.b)
+        return HexText(self.proxy.b)
 
 
 def _copy(t):
@@ -193,8 +242,15 @@ def _worker(idxs):
     ns = H.ns
     rep = Report(PID, _G["tier"], 0, "other")
     nd = 0
+    import time as _time
+    t_stop = _time.time() + (420 if _G["tier"] == "quick" else 2400)
     for i in idxs:
         p = D.pgns[i]
+        if len(rep.violations) >= 6:
+            break            # enough counterexamples from this share of the definitions; the verdict is VIOLATED anyway
+        if _time.time() > t_stop:
+            rep.inconc("time budget of the worker exhausted before definition %s" % p.id)
+            break
         suffix = D.func_suffix(p)
         dec_fn = ns.get("decode_pgn_%s" % suffix)
         pv, fvars, W = layout(p)
@@ -209,10 +265,17 @@ def _worker(idxs):
             m.add_data(addr[0], addr[1], addr[2], datetime(2020, 1, 1), None, False, b"\x01\x02")
             ex = EX()
             n0 = len(ex.deferred)
-            doc = m.to_json()
-            m2 = R.message.NMEA2000Message.from_json(doc)
+            try:
+                doc = m.to_json()
+                m2 = R.message.NMEA2000Message.from_json(doc)
+            except Exception as e:
+                return "json-raised", e, None, n0, n0, n0, m, None
             shape = (m2.PGN == m.PGN and m2.id == m.id and [f.id for f in m2.fields] == [f.id for f in m.fields])
             addr_ok = z3.And(numkernel.eq_term(m2.source, addr[0]), numkernel.eq_term(m2.destination, addr[1]), numkernel.eq_term(m2.priority, addr[2]))
+            if shape is True:
+                fld = [(f.id, z3.And(rendered_eq(f.value, g.value), rendered_eq(f.raw_value, g.raw_value))) for f, g in zip(m.fields, m2.fields)]
+                bad_ids = [i for i, c in fld if z3.is_false(z3.simplify(c))]
+                addr_ok = (addr_ok, bad_ids, z3.And(*[c for _, c in fld]) if fld else z3.BoolVal(True))
             b1 = b2 = None
             if enc_ok and mode == "full":
                 enc = R.encoder.NMEA2000Encoder()
@@ -240,15 +303,39 @@ def _worker(idxs):
             def wit(mm):
                 return {"kind": "json", "def": p.id, "payload": hex(mm.eval(pv, True).as_long()) if mm is not None else "0x0"}
             if pa.kind == "raise":
+                if isinstance(pa.value, RecursionError):
+                    rep.error("%s: recursion in the harness: %r" % (p.id, pa.value))
+                    continue
                 if isinstance(pa.value, TypeError) or "JSON" in str(pa.value):
                     st0, m0 = satisfiable(z3.And(*([c for c in pa.pc if not has_fp(c)] + inrange)))
                     if st0 == "sat":
                         rep.violation({"kind": "to-json-raises", "def": p.id}, "%s: to_json/from_json raised %r" % (p.id, pa.value), wit(m0))
+                else:
+                    rep.count("paths_on_which_the_decoder_or_the_encoder_of_the_original_raises", 1)
                 continue
             if pa.kind != "return":
                 continue
             shape, b1, b2, n0, n1, n2, m, addr_ok = pa.value
-            if shape:
+            if shape == "json-raised":
+                st0, m0 = satisfiable(z3.And(*([c for c in pa.pc if not has_fp(c)] + inrange)))
+                if st0 == "sat":
+                    rep.violation({"kind": "to-json-raises", "def": p.id}, "%s: to_json/from_json raised %r" % (p.id, b1), wit(m0))
+                continue
+            if shape is True:
+                addr_ok, bad_ids, fields_ok = addr_ok
+                if bad_ids:
+                    st0, m0 = satisfiable(z3.And(*([c for c in pa.pc if not has_fp(c)] + inrange)))
+                    if st0 == "sat":
+                        rep.violation({"kind": "json-field", "def": p.id, "field": bad_ids[0]},
+                                      "%s.%s: value / raw value in the parsed message is not the demanded rendering (binary as hex, date and time as ISO text, otherwise the same value)" % (p.id, bad_ids[0]), wit(m0))
+                        continue
+                elif not z3.is_true(z3.simplify(fields_ok)):
+                    stf, mmf = prove(fields_ok, list(pa.pc) + inrange, label="json-field-values", timeout_ms=30000)
+                    if stf == "sat":
+                        rep.violation({"kind": "json-field", "def": p.id}, "%s: a field's value / raw value changes in the JSON round trip" % p.id, wit(mmf))
+                        continue
+                    elif stf == "unknown":
+                        rep.inconc("%s: field values in the JSON round trip undecided" % p.id)
                 sta, mma = prove(addr_ok, [c for c in pa.pc if not has_fp(c)] + inrange, label="json-addressing")
                 if sta == "sat":
                     w_ = wit(mma)
@@ -304,7 +391,7 @@ def _worker(idxs):
                 rep.inconc("%s: re-encode equality undecided" % p.id)
         if len(rep.samples) < 1:
             rep.sample({"definition": p.id, "paths": len(paths), "encodable": enc_ok})
-    return dict(violations=rep.violations, inconclusive=rep.inconclusive, errors=rep.harness_errors, samples=rep.samples, stats=explorer.STATS, nd=nd)
+    return dict(violations=rep.violations, inconclusive=rep.inconclusive, errors=rep.harness_errors, samples=rep.samples, stats=explorer.STATS, nd=nd, counts=rep.counts)
 
 
 DUMP_ENTRIES = [127250, 127506, 65280, 126992, "vesselHeading", "vesselheading", "VESSELHEADING", "dcDetailedStatus", "furunoHeave", "noSuchId"]
@@ -336,8 +423,15 @@ def dump_check(rep, N_or_R, tier, is_plain=False):
             bad = "raised %r" % (e,)
         got = buf.getvalue()
         if bad is None and got != "".join(expect):
-            bad = "dump holds %d line(s) %r, expected %d %r" % (got.count("\n"), [json.loads(l)["id"] for l in got.splitlines() if l],
-                                                              len(expect), [json.loads(l)["id"] for l in expect])
+            def ids_(text):
+                out = []
+                for l in text.splitlines():
+                    try:
+                        out.append(json.loads(l)["id"])
+                    except Exception:
+                        out.append("<not one JSON document: %d characters>" % len(l))
+                return out
+            bad = "dump holds %d line(s) %r, expected %d %r" % (got.count("\n"), ids_(got), len(expect), ids_("".join(expect)))
         n += 1
         if bad is not None:
             if rep is None:
@@ -407,6 +501,19 @@ def replay(r):
     problems = []
     if (m2.PGN, m2.id, m2.source, m2.destination, m2.priority) != (m.PGN, m.id) + a3 or [f.id for f in m2.fields] != [f.id for f in m.fields]:
         problems.append("PGN/id/addressing/field ids differ")
+    def rendering(v):
+        if isinstance(v, (bytes, bytearray)):
+            return v.hex()
+        if isinstance(v, (date, time, datetime)):
+            return v.isoformat()
+        if isinstance(v, float) and not math.isfinite(v):
+            return None
+        return v
+    for f, g in zip(m.fields, m2.fields):
+        for a_, b_, nm in ((f.value, g.value, "value"), (f.raw_value, g.raw_value, "raw value")):
+            e_ = rendering(a_)
+            if type(e_) is not type(b_) or e_ != b_:
+                problems.append("field %s: %s %r parses back as %r (expected %r)" % (f.id, nm, a_, b_, e_))
     enc = N.encoder.NMEA2000Encoder()
     try:
         b1 = enc._call_encode_function(m)
